@@ -178,7 +178,126 @@ EDITS = {
         ("HX2", "subset", "outside the subset: the new table escapes into a second pointer (expected: rejected)",
          [("\tfor(size_t i = 0; i < new_capacity; i++)\n\t\tnew_table[i] = nullptr;", "\tchain **alias = new_table;\n\tfor(size_t i = 0; i < new_capacity; i++)\n\t\talias[i] = nullptr;", 1)]),
     ],
+    "rb": [
+        ("R1", "sem", "rotateLeft: w read after u's parent was overwritten (dependent swap)",
+         [("\t\tT *w = get_parent(u);\n\n\t\tif(v != nullptr)\n\t\t\th(v)->parent = u;\n\t\th(u)->right = v;\n\t\th(u)->parent = n;\n",
+           "\n\t\tif(v != nullptr)\n\t\t\th(v)->parent = u;\n\t\th(u)->right = v;\n\t\th(u)->parent = n;\n\t\tT *w = get_parent(u);\n", 1)]),
+        ("R2", "sem", "rotateLeft: null check of v dropped",
+         [("\t\tif(v != nullptr)\n\t\t\th(v)->parent = u;\n\t\th(u)->right = v;", "\t\th(v)->parent = u;\n\t\th(u)->right = v;", 1)]),
+        ("R3", "sem", "rotateLeft: u hung under n->right instead of n->left",
+         [("\t\th(n)->left = u;\n\t\th(n)->parent = w;", "\t\th(n)->right = u;\n\t\th(n)->parent = w;", 1)]),
+        ("R4", "sem", "rotateRight: _root = u instead of n",
+         [("\t\th(n)->right = u;\n\t\th(n)->parent = w;\n\n\t\tif(w == nullptr) {\n\t\t\t_root = n;", "\t\th(n)->right = u;\n\t\th(n)->parent = w;\n\n\t\tif(w == nullptr) {\n\t\t\t_root = u;", 1)]),
+        ("R5", "sem", "rotateRight: assertion checks the wrong child",
+         [("FRG_ASSERT(u != nullptr && get_left(u) == n);", "FRG_ASSERT(u != nullptr && get_right(u) == n);", 1)]),
+        ("R6", "sem", "rotateLeft: aggregate_node(n) before aggregate_node(u)",
+         [("\t\th(w)->right = n;\n\t\t}\n\n\t\taggregate_node(u);\n\t\taggregate_node(n);\n\t}\n\n\t// Right rotation",
+           "\t\th(w)->right = n;\n\t\t}\n\n\t\taggregate_node(n);\n\t\taggregate_node(u);\n\t}\n\n\t// Right rotation", 1)]),
+        ("F1", "sem", "fix_insert: n coloured red only after the black-parent test",
+         [("\t\th(n)->color = color_type::red;\n\t\tif(h(parent)->color == color_type::black)\n\t\t\treturn;\n",
+           "\t\tif(h(parent)->color == color_type::black)\n\t\t\treturn;\n\t\th(n)->color = color_type::red;\n", 1)]),
+        ("F2", "sem", "fix_insert: red-uncle test dropped from the first case",
+         [("if(get_left(grand) == parent && isRed(get_right(grand))) {", "if(get_left(grand) == parent) {", 1)]),
+        ("F3", "sem", "fix_insert: the two rotations of the inner case exchanged",
+         [("\t\t\t\trotateLeft(n);\n\t\t\t\trotateRight(n);", "\t\t\t\trotateRight(n);\n\t\t\t\trotateLeft(n);", 1)]),
+        ("F4", "sem", "fix_insert: grand not coloured red after the outer rotation",
+         [("\t\t\t\th(parent)->color = color_type::black;\n\t\t\t}\n\t\t\th(grand)->color = color_type::red;\n\t\t}else{",
+           "\t\t\t\th(parent)->color = color_type::black;\n\t\t\t}\n\t\t}else{", 1)]),
+        ("F5", "sem", "fix_insert: no propagation to the grandparent in the red-uncle case",
+         [("\t\t\th(get_right(grand))->color = color_type::black;\n\n\t\t\tfix_insert(grand);\n\t\t\treturn;",
+           "\t\t\th(get_right(grand))->color = color_type::black;\n\n\t\t\treturn;", 1)]),
+        ("F6", "sem", "fix_insert: FRG_ASSERT(grand && ...) weakened to the colour test only (null check dropped)",
+         [("FRG_ASSERT(grand && h(grand)->color == color_type::black);", "FRG_ASSERT(h(grand)->color == color_type::black);", 1)]),
+        ("I1", "sem", "insert_root: FRG_ASSERT(!_root) dropped",
+         [("\t\tFRG_ASSERT(!_root);\n", "", 1)]),
+        ("I2", "sem", "insert_left: node's predecessor set to parent instead of pred",
+         [("\t\th(node)->predecessor = pred;", "\t\th(node)->predecessor = parent;", 1)]),
+        ("I3", "sem", "insert_left: null check of pred dropped",
+         [("\t\tif(pred)\n\t\t\th(pred)->successor = node;", "\t\th(pred)->successor = node;", 1)]),
+        ("I4", "sem", "insert_left: aggregate_path(parent) before aggregate_node(node)",
+         [("\t\th(parent)->predecessor = node;\n\n\t\taggregate_node(node);\n\t\taggregate_path(parent);",
+           "\t\th(parent)->predecessor = node;\n\n\t\taggregate_path(parent);\n\t\taggregate_node(node);", 1)]),
+        ("I5", "sem", "insert_right: successor(parent) read after it was overwritten (dependent swap)",
+         [("\t\tT *succ = successor(parent);\n\t\th(parent)->successor = node;", "\t\th(parent)->successor = node;\n\t\tT *succ = successor(parent);", 1)]),
+        ("I6", "sem", "insert_right: fix_insert not called",
+         [("\t\tif(succ)\n\t\t\th(succ)->predecessor = node;\n\n\t\taggregate_node(node);\n\t\taggregate_path(parent);\n\t\tfix_insert(node);",
+           "\t\tif(succ)\n\t\t\th(succ)->predecessor = node;\n\n\t\taggregate_node(node);\n\t\taggregate_path(parent);", 1)]),
+        ("X1", "sem", "fix_remove: FRG_ASSERT(h(n)->color == black) dropped",
+         [("\t\tFRG_ASSERT(h(n)->color == color_type::black);\n", "", 1)]),
+        ("X2", "sem", "fix_remove: colours of parent and old sibling exchanged after the first rotation (left case)",
+         [("\t\t\t\tFRG_ASSERT(n == get_left(parent));\n\n\t\t\t\th(parent)->color = color_type::red;\n\t\t\t\th(x)->color = color_type::black;",
+           "\t\t\t\tFRG_ASSERT(n == get_left(parent));\n\n\t\t\t\th(parent)->color = color_type::black;\n\t\t\t\th(x)->color = color_type::red;", 1)]),
+        ("X3", "sem", "fix_remove: sibling taken from the wrong side",
+         [("\t\t\ts = get_right(parent);\n\t\t}else{", "\t\t\ts = get_left(parent);\n\t\t}else{", 1)]),
+        ("X4", "sem", "fix_remove: `both children black` test weakened to `one child black`",
+         [("if(isBlack(get_left(s)) && isBlack(get_right(s))) {", "if(isBlack(get_left(s)) || isBlack(get_right(s))) {", 1)]),
+        ("X5", "sem", "fix_remove: sibling gets black instead of the parent's colour (left case)",
+         [("\t\t\trotateLeft(s);\n\t\t\th(parent)->color = color_type::black;\n\t\t\th(s)->color = parent_color;",
+           "\t\t\trotateLeft(s);\n\t\t\th(parent)->color = color_type::black;\n\t\t\th(s)->color = color_type::black;", 1)]),
+        ("X6", "sem", "fix_remove: inner rotation in the wrong direction (left case)",
+         [("\t\t\t\tT *child = get_left(s);\n\t\t\t\trotateRight(child);", "\t\t\t\tT *child = get_left(s);\n\t\t\t\trotateLeft(child);", 1)]),
+        ("X7", "sem", "fix_remove: no recursion when parent and sibling subtree are black",
+         [("\t\t\t\th(s)->color = color_type::red;\n\t\t\t\tfix_remove(parent);\n\t\t\t\treturn;", "\t\t\t\th(s)->color = color_type::red;\n\t\t\t\treturn;", 1)]),
+        ("X8", "sem", "fix_remove: s not re-pointed to child after the inner rotation (right case)",
+         [("\t\t\t\th(child)->color = color_type::black;\n\n\t\t\t\ts = child;\n\t\t\t}\n\t\t\tFRG_ASSERT(isRed(get_left(s)));",
+           "\t\t\t\th(child)->color = color_type::black;\n\t\t\t}\n\t\t\tFRG_ASSERT(isRed(get_left(s)));", 1)]),
+        ("L1", "sem", "remove_half_leaf: successor's predecessor link not repaired",
+         [("\t\tif(succ)\n\t\t\th(succ)->predecessor = pred;\n\n\t\tif(h(node)->color", "\n\t\tif(h(node)->color", 1)]),
+        ("L2", "sem", "remove_half_leaf: isRed(child) replaced by a null test",
+         [("\t\t\tif(isRed(child)) {\n\t\t\t\th(child)->color = color_type::black;", "\t\t\tif(child) {\n\t\t\t\th(child)->color = color_type::black;", 1)]),
+        ("L3", "sem", "remove_half_leaf: node's parent link not reset",
+         [("\t\th(node)->right = nullptr;\n\t\th(node)->parent = nullptr;\n\t\th(node)->predecessor = nullptr;\n\t\th(node)->successor = nullptr;\n\n\t\tif(parent)",
+           "\t\th(node)->right = nullptr;\n\t\th(node)->predecessor = nullptr;\n\t\th(node)->successor = nullptr;\n\n\t\tif(parent)", 1)]),
+        ("L4", "sem", "remove_half_leaf: child hung under the wrong side of parent",
+         [("\t\t}else if(get_left(parent) == node) {\n\t\t\th(parent)->left = child;", "\t\t}else if(get_left(parent) == node) {\n\t\t\th(parent)->right = child;", 1)]),
+        ("P1", "sem", "replace_node: colour not copied",
+         [("\t\th(replacement)->color = h(node)->color;\n", "", 1)]),
+        ("P2", "sem", "replace_node: left child's parent set to the old node",
+         [("\t\tif(left)\n\t\t\th(left)->parent = replacement;", "\t\tif(left)\n\t\t\th(left)->parent = node;", 1)]),
+        ("P3", "sem", "replace_node: successor link of the replacement copied from predecessor(node)",
+         [("\t\th(replacement)->successor = successor(node);", "\t\th(replacement)->successor = predecessor(node);", 1)]),
+        ("M1", "sem", "remove: replace_node before the predecessor is unlinked",
+         [("\t\t\tremove_half_leaf(pred, get_left(pred));\n\t\t\treplace_node(node, pred);", "\t\t\treplace_node(node, pred);\n\t\t\tremove_half_leaf(pred, get_left(pred));", 1)]),
+        ("M2", "sem", "remove: the wrong child passed in the first case",
+         [("\t\t\tremove_half_leaf(node, right_ptr);", "\t\t\tremove_half_leaf(node, left_ptr);", 1)]),
+        ("A1", "sem", "aggregate_path: early stop dropped",
+         [("\t\t\tif(!A::aggregate(current))\n\t\t\t\tbreak;\n", "\t\t\tA::aggregate(current);\n", 1)]),
+        ("C1", "sem", "isRed(nullptr) returns true",
+         [("\tstatic bool isRed(T *node) {\n\t\tif(!node)\n\t\t\treturn false;", "\tstatic bool isRed(T *node) {\n\t\tif(!node)\n\t\t\treturn true;", 1)]),
+        ("G1", "sem", "get_left returns the right child (accessor inlined at every call site)",
+         [("\t\treturn static_cast<T *>(h(item)->left);", "\t\treturn static_cast<T *>(h(item)->right);", 1)]),
+        ("O1", "order", "replace_node: predecessor's successor link repaired AFTER the replacement's own links (independent writes; "
+         "expected: breaks)",
+         [("\t\tif(predecessor(node))\n\t\t\th(predecessor(node))->successor = replacement;\n\t\th(replacement)->predecessor = predecessor(node);\n\t\th(replacement)->successor = successor(node);\n",
+           "\t\th(replacement)->predecessor = predecessor(node);\n\t\th(replacement)->successor = successor(node);\n\t\tif(predecessor(node))\n\t\t\th(predecessor(node))->successor = replacement;\n", 1)]),
+        ("RH1", "harmless", "rename the locals u, v, w of rotateLeft (expected green)",
+         [("\t\tT *u = get_parent(n);\n\t\tFRG_ASSERT(u != nullptr && get_right(u) == n);\n\t\tT *v = get_left(n);\n\t\tT *w = get_parent(u);\n\n\t\tif(v != nullptr)\n\t\t\th(v)->parent = u;\n\t\th(u)->right = v;\n\t\th(u)->parent = n;\n\t\th(n)->left = u;\n\t\th(n)->parent = w;\n\n\t\tif(w == nullptr) {\n\t\t\t_root = n;\n\t\t}else if(get_left(w) == u) {\n\t\t\th(w)->left = n;\n\t\t}else{\n\t\t\tFRG_ASSERT(get_right(w) == u);\n\t\t\th(w)->right = n;\n\t\t}\n\n\t\taggregate_node(u);",
+           "\t\tT *up = get_parent(n);\n\t\tFRG_ASSERT(up != nullptr && get_right(up) == n);\n\t\tT *inner = get_left(n);\n\t\tT *top = get_parent(up);\n\n\t\tif(inner != nullptr)\n\t\t\th(inner)->parent = up;\n\t\th(up)->right = inner;\n\t\th(up)->parent = n;\n\t\th(n)->left = up;\n\t\th(n)->parent = top;\n\n\t\tif(top == nullptr) {\n\t\t\t_root = n;\n\t\t}else if(get_left(top) == up) {\n\t\t\th(top)->left = n;\n\t\t}else{\n\t\t\tFRG_ASSERT(get_right(top) == up);\n\t\t\th(top)->right = n;\n\t\t}\n\n\t\taggregate_node(up);", 1)]),
+        ("RH2", "harmless", "three comment lines at the top of the header: EVERY line label moves (expected green: the tie is "
+         "stated for the model's labels, not for the current lines)",
+         [("#ifndef FRG_RBTREE_HPP\n", "// one\n// two\n// three\n#ifndef FRG_RBTREE_HPP\n", 1)]),
+        ("RH3", "harmless", "`v != nullptr` -> `v`, `parent == nullptr` -> `!parent` (expected green)",
+         [("\t\tT *w = get_parent(u);\n\n\t\tif(v != nullptr)\n\t\t\th(v)->parent = u;\n\t\th(u)->right = v;", "\t\tT *w = get_parent(u);\n\n\t\tif(v)\n\t\t\th(v)->parent = u;\n\t\th(u)->right = v;", 1),
+          ("\t\tT *parent = get_parent(n);\n\t\tif(parent == nullptr) {\n\t\t\th(n)->color = color_type::black;", "\t\tT *parent = get_parent(n);\n\t\tif(!parent) {\n\t\t\th(n)->color = color_type::black;", 1)]),
+        ("RH4", "harmless", "reorder two INDEPENDENT assignments (two fields of u) in rotateLeft (expected: breaks, heaps equal only "
+         "extensionally, write log differs)",
+         [("\t\th(u)->right = v;\n\t\th(u)->parent = n;\n\t\th(n)->left = u;", "\t\th(u)->parent = n;\n\t\th(u)->right = v;\n\t\th(n)->left = u;", 1)]),
+        ("RH5", "harmless", "remove_half_leaf: aggregate_path(parent) called unconditionally (a no-op for nullptr; expected: breaks, "
+         "the fuelled loop does not unfold for a variable fuel)",
+         [("\t\tif(parent)\n\t\t\taggregate_path(parent);\n\t}\n\n\t// Situation", "\t\taggregate_path(parent);\n\t}\n\n\t// Situation", 1)]),
+        ("RH6", "harmless", "name a subexpression in a new local in remove (expected green)",
+         [("\t\t\tremove_half_leaf(pred, get_left(pred));", "\t\t\tT *pl = get_left(pred);\n\t\t\tremove_half_leaf(pred, pl);", 1)]),
+        ("RX1", "subset", "outside the subset: an int counter in rotateLeft (expected: rejected, node named)",
+         [("\t\tT *u = get_parent(n);\n\t\tFRG_ASSERT(u != nullptr && get_right(u) == n);", "\t\tint depth = 0;\n\t\tT *u = get_parent(n);\n\t\tFRG_ASSERT(u != nullptr && get_right(u) == n);", 1)]),
+        ("RX2", "subset", "outside the subset: ternary operator (expected: rejected, node named)",
+         [("\t\tT *v = get_left(n);\n\t\tT *w = get_parent(u);\n\n\t\tif(v != nullptr)", "\t\tT *v = n ? get_left(n) : nullptr;\n\t\tT *w = get_parent(u);\n\n\t\tif(v != nullptr)", 1)]),
+    ],
 }
+
+
+TIES = {"pairing": ["PtrGen/Tie_pairing.v"], "hashmap": ["PtrGen/Tie_hashmap.v"],
+        "rb": ["PtrGen/Tie_rb.v", "PtrGen/Tie_rb_remove.v", "PtrGen/Tie_rb_run.v"]}
+WORKERS = int(os.environ.get("PTRGEN_SELFTEST_JOBS", "4"))
 
 
 def sh(cmd, **kw):
@@ -186,87 +305,121 @@ def sh(cmd, **kw):
     return p.returncode, p.stdout, p.stderr
 
 
+class Worker:
+    """one scratch worktree of /repo + one shadow of /verif/coq (symlinks to the compiled directories, private Gen/ PtrGen/)"""
+    def __init__(self, work, k):
+        self.wt = os.path.join(work, "repo%d" % k)
+        rc, o, e = sh(["git", "-C", "/repo", "worktree", "add", "--detach", self.wt])
+        if rc != 0:
+            raise RuntimeError("cannot create the scratch worktree: " + e)
+        self.shadow = os.path.join(work, "verif%d" % k)
+        self.coq = os.path.join(self.shadow, "coq")
+        os.makedirs(os.path.join(self.coq, "Gen"))
+        os.makedirs(os.path.join(self.coq, "PtrGen"))
+        for d in os.listdir(os.path.join(ROOT, "coq")):
+            src = os.path.join(ROOT, "coq", d)
+            if os.path.isdir(src) and d not in ("Gen", "PtrGen"):
+                os.symlink(src, os.path.join(self.coq, d))
+        for f in os.listdir(os.path.join(ROOT, "coq", "PtrGen")):
+            if f.endswith(".v"):
+                shutil.copy(os.path.join(ROOT, "coq", "PtrGen", f), os.path.join(self.coq, "PtrGen", f))
+        self.prepared = set()
+
+    def prepare(self, part):
+        if part in self.prepared:
+            return
+        for f in ["PtrGen/PtrCtl.v", "PtrGen/TieTac.v", "PtrGen/Bind_%s.v" % part]:
+            rc, o, e = sh(["timeout", "300", "coqc", "-Q", ".", "FV", f], cwd=self.coq)
+            if rc != 0:
+                raise RuntimeError("cannot compile %s: %s" % (f, e[-500:]))
+        self.prepared.add(part)
+
+    def run(self, part, orig, edit):
+        eid, kind, desc, subs = edit
+        self.prepare(part)
+        hdr = os.path.join(self.wt, HDR[part])
+        txt = orig
+        for old, new, cnt in subs:
+            if txt.count(old) != cnt:
+                return eid, kind, desc, "PATCH DOES NOT APPLY (%d occurrences of %r)" % (txt.count(old), old[:50]), []
+            txt = txt.replace(old, new)
+        open(hdr, "w").write(txt)
+        env = dict(os.environ, VERIF_REPO=self.wt, PTRGEN_ROOT=self.shadow)
+        rc, o, e = sh([sys.executable, os.path.join(ROOT, "translator", "gen_ptrmodels.py"), part], env=env)
+        rejected = [l for l in o.split("\n") if "FAILED" in l]
+        verdict = ""
+        if rejected:
+            verdict = "rejected: " + rejected[0].split("FAILED", 1)[1].strip()[:230]
+        rc1, o1, e1 = sh(["timeout", "600", "coqc", "-Q", ".", "FV", "Gen/Ptr_%s.v" % part], cwd=self.coq)
+        if rc1 != 0:
+            verdict += " | generated file does not compile: " + e1.strip().split("\n")[-1][:200]
+        else:
+            broke = None
+            for tie in TIES[part]:
+                rc2, o2, e2 = sh(["timeout", "900", "coqc", "-Q", ".", "FV", tie], cwd=self.coq)
+                if rc2 != 0:
+                    m = re.search(r'line (\d+), characters', e2)
+                    broke = "? (%s)" % tie
+                    if m:
+                        src = open(os.path.join(self.coq, tie)).read().split("\n")[:int(m.group(1))]
+                        names = re.findall(r"^\s*(?:Lemma|Theorem)\s+(\w+)", "\n".join(src), re.M)
+                        broke = names[-1] if names else broke
+                    if rc2 == 124:
+                        broke += " (timeout)"
+                    break
+            if broke:
+                verdict += (" | " if verdict else "") + "tie broke at %s" % broke
+            elif not verdict:
+                verdict = "green"
+        open(hdr, "w").write(orig)
+        return eid, kind, desc, verdict, rejected
+
+    def close(self):
+        sh(["git", "-C", "/repo", "worktree", "remove", "--force", self.wt])
+
+
 def main(argv):
+    import concurrent.futures, queue
     parts = argv or [p for p in EDITS]
     work = tempfile.mkdtemp(prefix="ptrgen-selftest-")
-    wt = os.path.join(work, "repo")
-    rc, o, e = sh(["git", "-C", "/repo", "worktree", "add", "--detach", wt])
-    if rc != 0:
-        print("cannot create the scratch worktree:", e)
-        return 2
-    shadow = os.path.join(work, "verif")
-    coq = os.path.join(shadow, "coq")
-    os.makedirs(os.path.join(coq, "Gen"))
-    os.makedirs(os.path.join(coq, "PtrGen"))
-    for d in os.listdir(os.path.join(ROOT, "coq")):
-        src = os.path.join(ROOT, "coq", d)
-        if os.path.isdir(src) and d not in ("Gen", "PtrGen"):
-            os.symlink(src, os.path.join(coq, d))
+    workers = []
     bad = 0
     try:
+        for k in range(WORKERS):
+            workers.append(Worker(work, k))
+        idle = queue.Queue()
+        for w in workers:
+            idle.put(w)
+
+        def job(part, orig, edit):
+            w = idle.get()
+            try:
+                return w.run(part, orig, edit)
+            finally:
+                idle.put(w)
         for part in parts:
-            for f in os.listdir(os.path.join(ROOT, "coq", "PtrGen")):
-                if f.endswith(".v"):
-                    shutil.copy(os.path.join(ROOT, "coq", "PtrGen", f), os.path.join(coq, "PtrGen", f))
-            base = ["PtrGen/PtrCtl.v", "PtrGen/TieTac.v", "PtrGen/Bind_%s.v" % part]
-            for f in base:
-                rc, o, e = sh(["timeout", "300", "coqc", "-Q", ".", "FV", f], cwd=coq)
-                if rc != 0:
-                    print("cannot compile", f, e[-500:])
-                    return 2
-            hdr = os.path.join(wt, HDR[part])
-            orig = open(hdr).read()
-            for eid, kind, desc, subs in [("%s0" % part[0].upper(), "none", "unchanged source (must be green)", [])] + EDITS[part]:
-                txt = orig
-                okpatch = True
-                for old, new, cnt in subs:
-                    if txt.count(old) != cnt:
-                        print("%-5s PATCH DOES NOT APPLY (%d occurrences of %r)" % (eid, txt.count(old), old[:50]))
-                        okpatch = False
-                        break
-                    txt = txt.replace(old, new)
-                if not okpatch:
-                    bad += 1
-                    continue
-                open(hdr, "w").write(txt)
-                env = dict(os.environ, VERIF_REPO=wt, PTRGEN_ROOT=shadow)
-                rc, o, e = sh([sys.executable, os.path.join(ROOT, "translator", "gen_ptrmodels.py"), part], env=env)
-                rejected = [l for l in o.split("\n") if "FAILED" in l]
-                verdict = ""
-                if rejected:
-                    verdict = "rejected: " + "; ".join(l.split("FAILED", 1)[1].strip()[:260] for l in rejected)
-                rc1, o1, e1 = sh(["timeout", "600", "coqc", "-Q", ".", "FV", "Gen/Ptr_%s.v" % part], cwd=coq)
-                if rc1 != 0:
-                    verdict += " | generated file does not compile: " + e1.strip().split("\n")[-1][:200]
-                else:
-                    rc2, o2, e2 = sh(["timeout", "900", "coqc", "-Q", ".", "FV", "PtrGen/Tie_%s.v" % part], cwd=coq)
-                    if rc2 != 0:
-                        m = re.search(r'line (\d+), characters', e2)
-                        lemma = "?"
-                        if m:
-                            ln = int(m.group(1))
-                            src = open(os.path.join(coq, "PtrGen", "Tie_%s.v" % part)).read().split("\n")[:ln]
-                            names = re.findall(r"^\s*(?:Lemma|Theorem)\s+(\w+)", "\n".join(src), re.M)
-                            lemma = names[-1] if names else "?"
-                        verdict += (" | " if verdict else "") + "tie broke at %s" % lemma
-                    elif not verdict:
-                        verdict = "green"
-                expect_break = kind in ("sem", "subset", "order")
-                flag = ""
-                if kind == "none" and verdict != "green":
-                    flag = "  <-- UNCHANGED SOURCE NOT GREEN"
-                    bad += 1
-                if kind == "sem" and verdict == "green":
-                    flag = "  <-- MISSED"
-                    bad += 1
-                if kind == "subset" and not rejected:
-                    flag = "  <-- NOT REJECTED"
-                    bad += 1
-                print("%-5s %-8s %-100s %s%s" % (eid, kind, desc[:100], verdict, flag))
-                sys.stdout.flush()
-            open(hdr, "w").write(orig)
+            orig = open(os.path.join("/repo", HDR[part])).read()
+            edits = [("%s0" % part[0].upper(), "none", "unchanged source (must be green)", [])] + EDITS[part]
+            with concurrent.futures.ThreadPoolExecutor(WORKERS) as ex:
+                for eid, kind, desc, verdict, rejected in ex.map(lambda e: job(part, orig, e), edits):
+                    flag = ""
+                    if "PATCH DOES NOT APPLY" in verdict:
+                        flag = "  <-- EDIT TABLE OUT OF DATE"
+                        bad += 1
+                    elif kind == "none" and verdict != "green":
+                        flag = "  <-- UNCHANGED SOURCE NOT GREEN"
+                        bad += 1
+                    elif kind == "sem" and verdict == "green":
+                        flag = "  <-- MISSED"
+                        bad += 1
+                    elif kind == "subset" and not rejected:
+                        flag = "  <-- NOT REJECTED"
+                        bad += 1
+                    print("%-5s %-8s %-100s %s%s" % (eid, kind, desc[:100], verdict, flag))
+                    sys.stdout.flush()
     finally:
-        sh(["git", "-C", "/repo", "worktree", "remove", "--force", wt])
+        for w in workers:
+            w.close()
         shutil.rmtree(work, ignore_errors=True)
     return 1 if bad else 0
 
